@@ -91,8 +91,13 @@ def masterKey (salt : Nat) (p : Pass) : Term := .kdf (.rnd salt) (passT p)
 /-- SecretKey.Marshal: salt ‖ sha256(key) (‖ N, R, P) -/
 def paramsT (salt : Nat) (p : Pass) : Term := .pair (.rnd salt) (.hash (masterKey salt p))
 
+/-- the passphrase ends in a zero byte (hex token ends in "00"): snacl refuses to derive from it, because
+    HMAC's zero padding would make it derive the key of the passphrase without those bytes -/
+def endsZero (p : Pass) : Bool := p.length % 2 == 0 && p.endsWith "00"
+
 /-- SecretKey.Unmarshal + DeriveKey: derive from the candidate passphrase, compare the digest -/
 def deriveKey (params : Term) (p : Pass) : Option Term :=
+  if endsZero p then none else
   match params with
   | .pair salt digest =>
     let k := Term.kdf salt (passT p)
@@ -211,9 +216,10 @@ def checkPassword (params : Term) (a : AM) (p : Pass) : Option AM :=
     | some k => some { a with mkey := some k }
     | none => none
 
-/-- safelyCheckPassword: check, then zero the master key -/
+/-- safelyCheckPassword: check, then zero the master key it derived (only when locked: while unlocked
+    the derived key backs the cached unlock state and is left alone) -/
 def safelyCheckPassword (params : Term) (a : AM) (p : Pass) : Option AM :=
-  (checkPassword params a p).map (fun a => { a with mkey := none })
+  (checkPassword params a p).map (fun a' => if a'.unlocked then a' else { a' with mkey := none })
 
 /-- clearPrivKeys -/
 def clearPrivKeys (_ : AM) : AM := {}
@@ -276,6 +282,7 @@ def create (st : St) (w : String) (p : Pass) (bits : Nat) : St × Out :=
   if (AMap.get st.idents w).isSome then (st, .badOp) else
   if !validPass p then fail st "illegal" else
   if !validPass st.pubPass then fail st "illegal" else
+  if endsZero p then fail st "illegal" else      -- (unreachable: a legal passphrase has no zero byte; NewSecretKey would refuse)
   if p = st.pubPass then fail st "pubpriv" else
   if !validBits bits then fail st "script" else
   let n := st.nonce
@@ -348,6 +355,7 @@ def importKS (st : St) (k : String) (p : Pass) : St × Out :=
     | some mkPriv =>
       match (do let ck ← dec mkPriv x.cEntEnc; dec ck x.entEnc) with
       | some (.secret (.entropy e)) =>
+        if endsZero st.pubPass then fail st "script" else      -- secretKeyGen(public passphrase)
         if (AMap.get st.wal x.wallet).isSome then fail st "dup" else
         let n := st.nonce
         let nExt := if x.nExt = 0 then 1 else x.nExt
@@ -357,13 +365,18 @@ def importKS (st : St) (k : String) (p : Pass) : St × Out :=
         ({ st with db := putAll st.db es, wal := AMap.put st.wal x.wallet (⟨e, p, nExt, x.nInt⟩, {}), nonce := n + 4 }, .ok)
       | _ => fail st "script"
 
+/-- the symbolic name the harness knows an identity (entropy, passphrase) by; `w` if it is new -/
+def identName (st : St) (e : String) (p : Pass) (w : String) : String :=
+  match st.idents.find? (fun x => x.2 = (e, p)) with | some x => x.1 | none => w
+
 /-- ImportKeystoreWithMnemonic: no passphrase gate (the mnemonic is the credential) -/
 def importMn (st : St) (w : String) (p : Pass) (src : String) (ext int : Nat) : St × Out :=
   match AMap.get st.idents src with
   | none => (st, .badOp)
   | some (e, _) =>
-    let name := match st.idents.find? (fun x => x.2 = (e, p)) with | some x => x.1 | none => w
+    let name := identName st e p w
     if name = w && (AMap.get st.idents w).isSome && (AMap.get st.idents w) ≠ some (e, p) then (st, .badOp) else
+    if endsZero st.pubPass || endsZero p then fail st "script" else      -- secretKeyGen ×2 precede the duplicate check
     if (AMap.get st.wal name).isSome then fail st "dup" else
     let n := st.nonce
     let nExt := if ext = 0 then 1 else ext
@@ -372,12 +385,10 @@ def importMn (st : St) (w : String) (p : Pass) (src : String) (ext int : Nat) : 
     ({ st with db := putAll st.db es, wal := AMap.put st.wal name (⟨e, p, nExt, int⟩, {}),
                idents := AMap.put st.idents name (e, p), nonce := n + 5 }, .okName name)
 
-/-- ChangePubPassphrase: all keystores or none (one database transaction) -/
-def chpub (st : St) (old new : Pass) : St × Out :=
-  if !validPass new then fail st "illegal" else
-  if new = old then fail st "same" else
-  -- per keystore: safelyCheckPassword(new) must fail; the old public passphrase must open mpub
-  let bad := st.wal.findSome? (fun e =>
+/-- ChangePubPassphrase, per keystore: safelyCheckPassword(new) must FAIL (the new public passphrase must
+    not be the private one) and the old public passphrase must open mpub / cpub -/
+def chpubCheck (st : St) (old new : Pass) : Option String :=
+  st.wal.findSome? (fun e =>
     let w := e.1
     match safelyCheckPassword (dbGet st.db w .mpriv) e.2.2 new with
     | some _ => some "pubpriv"
@@ -387,17 +398,26 @@ def chpub (st : St) (old new : Pass) : St × Out :=
       | some mkOld => match dec mkOld (dbGet st.db w .cpub) with
         | none => some "script"
         | some _ => none)
-  match bad with
+
+/-- ChangePubPassphrase, the writes: putMasterKeyParams(pub) + putCryptoKeys(pub) per keystore, a fresh salt each -/
+def chpubWrites (st : St) (old new : Pass) : DB × Nat :=
+  st.wal.foldl (fun (acc : DB × Nat) e =>
+    let w := e.1
+    let ck := match deriveKey (dbGet st.db w .mpub) old with
+      | some mkOld => (dec mkOld (dbGet st.db w .cpub)).getD (.pub "missing")
+      | none => .pub "missing"
+    (AMap.put (AMap.put acc.1 (w, .mpub) (paramsT acc.2 new)) (w, .cpub) (.enc (masterKey acc.2 new) ck), acc.2 + 1))
+    (st.db, st.nonce)
+
+/-- ChangePubPassphrase: all keystores or none (one database transaction) -/
+def chpub (st : St) (old new : Pass) : St × Out :=
+  if !validPass new then fail st "illegal" else
+  if new = old then fail st "same" else
+  match chpubCheck st old new with
   | some c => fail st c
   | none =>
-    let (db, n) := st.wal.foldl (fun (acc : DB × Nat) e =>
-      let w := e.1
-      let ck := match deriveKey (dbGet st.db w .mpub) old with
-        | some mkOld => (dec mkOld (dbGet st.db w .cpub)).getD (.pub "missing")
-        | none => .pub "missing"
-      (AMap.put (AMap.put acc.1 (w, .mpub) (paramsT acc.2 new)) (w, .cpub) (.enc (masterKey acc.2 new) ck), acc.2 + 1))
-      (st.db, st.nonce)
-    ({ st with db := db, nonce := n, pubPass := new }, .ok)
+    let r := chpubWrites st old new
+    ({ st with db := r.1, nonce := r.2, pubPass := new }, .ok)
 
 /-- ChangePrivPassphrase: keystore version 0 never allows it -/
 def chpriv (st : St) (w : String) (old new : Pass) : St × Out :=
@@ -435,8 +455,8 @@ def signHash (st : St) (w : String) (branch idx : Nat) (p : Pass) : St × Out :=
   match AMap.get st.wal w with
   | none => (st, .err "key")
   | some (r, a) =>
-    let (a', o) := signBtcec st.db w r a branch idx p
-    let st := setAM st w r a'
+    -- whatever signBtcec cached, the deferred ClearPrivKey wipes it on every keystore
+    let o := (signBtcec st.db w r a branch idx p).2
     let st := { st with wal := clearAll st.wal }
     match o with
     | .err c => fail st c
